@@ -197,24 +197,29 @@ kind: VirtualService
 metadata: {name: vs-tenant, namespace: ns1}
 spec:
   hosts: [static2.ns1.example.com]
+  # only the two (otherwise empty) tenant namespaces import it, so the routes of the base proxies stay cacheable
+  exportTo: [ns3, ns5]
   http:
   - name: from-ns3
     match: [{sourceNamespace: ns3}]
     route: [{destination: {host: static2.ns1.example.com}, headers: {request: {set: {x-tenant: ns3}}}}]
-  - name: from-ns1-mesh
-    match: [{sourceNamespace: ns1, gateways: [mesh]}]
-    route: [{destination: {host: static2.ns1.example.com}, headers: {request: {set: {x-tenant: ns1}}}}]
+  - name: from-ns5-mesh
+    match: [{sourceNamespace: ns5, gateways: [mesh]}]
+    route: [{destination: {host: static2.ns1.example.com}, headers: {request: {set: {x-tenant: ns5}}}}]
   - name: gw-only
     match: [{gateways: [ns1/some-gateway], uri: {prefix: /gw}}]
     route: [{destination: {host: static2.ns1.example.com}, headers: {request: {set: {x-tenant: gw}}}}]
   - route: [{destination: {host: static2.ns1.example.com}}]
 ---
-# routes selected by the caller's labels (route "8080"), for contrast
+# routes selected by the caller's labels, for contrast.  Exported to ns2 only: a sidecar's RDS cache entry lists
+# ALL virtual services of its egress listener, so this one makes every route of the proxies that import it
+# uncacheable and would mask the sourceNamespace case for them.
 apiVersion: networking.istio.io/v1
 kind: VirtualService
 metadata: {name: vs-labels, namespace: ns1}
 spec:
   hosts: [dns.ns1.example.com]
+  exportTo: [ns2]
   http:
   - name: from-b
     match: [{sourceLabels: {app: b}}]
@@ -273,8 +278,11 @@ func variants() map[string]proxyAttrs {
 	}
 	v("same", func(a *proxyAttrs) {})
 	v("namespace", func(a *proxyAttrs) { a.Namespace = "ns2" })
-	// ns3 holds no config of its own: same imported services / virtual services / destination rules as ns1
+	// ns3 and ns5 hold no config of their own and import exactly the same services / virtual services /
+	// destination rules: their RDS cache keys coincide, only the namespace differs
 	v("namespace-peer", func(a *proxyAttrs) { a.Namespace = "ns3" })
+	v("namespace-peer2", func(a *proxyAttrs) { a.Namespace = "ns5" })
+	v("ns2-labels", func(a *proxyAttrs) { a.Namespace = "ns2"; a.Labels["app"] = "b" })
 	v("dns-domain", func(a *proxyAttrs) { a.DNSDomain = "ns1.svc.cluster.local" })
 	v("labels", func(a *proxyAttrs) { a.Labels["app"] = "b" })
 	v("network", func(a *proxyAttrs) { a.Network = "net2"; a.Labels["topology.istio.io/network"] = "net2" })
@@ -300,7 +308,17 @@ func generateAll(s *xds.FakeDiscoveryServer, p *model.Proxy) map[string]string {
 			out[kind+"/"+r.Name] = hex.EncodeToString(h[:8])
 		}
 	}
-	clusters, _ := s.ConfigGen.BuildClusters(p, req)
+	// NOTE: the generators registered on the DiscoveryServer share s.Discovery.Cache; s.ConfigGen (the
+	// ConfigGenTest helper) is built on a DisabledCache and must not be used here.
+	gen := func(typeURL string, names []string) model.Resources {
+		w := &model.WatchedResource{TypeUrl: typeURL, ResourceNames: sets.New(names...)}
+		rs, _, err := s.Discovery.Generators[typeURL].Generate(p, w, req)
+		if err != nil {
+			panic(err)
+		}
+		return rs
+	}
+	clusters := gen(v3.ClusterType, nil)
 	put("cds", clusters)
 	var edsNames []string
 	for _, c := range s.Clusters(p) {
@@ -308,12 +326,8 @@ func generateAll(s *xds.FakeDiscoveryServer, p *model.Proxy) map[string]string {
 			edsNames = append(edsNames, c.Name)
 		}
 	}
-	w := &model.WatchedResource{TypeUrl: v3.EndpointType, ResourceNames: sets.New(edsNames...)}
-	eps, _, _ := s.Discovery.Generators[v3.EndpointType].Generate(p, w, req)
-	put("eds", eps)
-	routeNames := xdscore.ExtractRoutesFromListeners(s.Listeners(p))
-	routes, _ := s.ConfigGen.BuildHTTPRoutes(p, req, routeNames)
-	put("rds", routes)
+	put("eds", gen(v3.EndpointType, edsNames))
+	put("rds", gen(v3.RouteType, xdscore.ExtractRoutesFromListeners(s.Listeners(p))))
 	return out
 }
 
@@ -340,7 +354,9 @@ func genHKey(t *testing.T, c *vlib.Collector, id *int, r *vlib.Rand) {
 			if !c.Wanted(*id) {
 				continue
 			}
-			if a != "same" && b != "same" && !vlib.Thorough() && (a != b) && r.Chance(60) {
+			forced := (a == "namespace" && b == "ns2-labels") || (a == "ns2-labels" && b == "namespace") ||
+				(a == "namespace-peer" && b == "namespace-peer2") || (a == "namespace-peer2" && b == "namespace-peer")
+			if a != "same" && b != "same" && !vlib.Thorough() && (a != b) && !forced && r.Chance(60) {
 				continue // quick tier: every variant against the base both ways + a sample of the cross pairs
 			}
 			if s == nil {
@@ -350,11 +366,13 @@ func genHKey(t *testing.T, c *vlib.Collector, id *int, r *vlib.Rand) {
 			}
 			var warm, cold, coldFirst map[string]string
 			cacheKeys := 0
+			var perType [3]int
 			pan, msg := vlib.Recover(func() {
 				p1, p2 := vs[a].build(s), vs[b].build(s)
 				s.Discovery.Cache.ClearAll()
 				coldFirst = generateAll(s, p1) // fills the shared cache with p1's resources
-				cacheKeys = len(s.Discovery.Cache.Keys(model.CDSType)) + len(s.Discovery.Cache.Keys(model.EDSType)) + len(s.Discovery.Cache.Keys(model.RDSType))
+				perType = [3]int{len(s.Discovery.Cache.Keys(model.CDSType)), len(s.Discovery.Cache.Keys(model.EDSType)), len(s.Discovery.Cache.Keys(model.RDSType))}
+				cacheKeys = perType[0] + perType[1] + perType[2]
 				warm = generateAll(s, p2)  // p2 served with whatever the keys let it share
 				s.Discovery.Cache.ClearAll()
 				cold = generateAll(s, vs[b].build(s)) // p2 alone
@@ -399,11 +417,16 @@ func genHKey(t *testing.T, c *vlib.Collector, id *int, r *vlib.Rand) {
 			if cacheKeys == 0 {
 				tags = append(tags, "hkey:cache-empty-after-first")
 			}
+			for i, n := range []string{"cds", "eds", "rds"} {
+				if perType[i] > 0 {
+					tags = append(tags, "hkey:"+n+"-entries-cached-by-first")
+				}
+			}
 			// non-trivial = the two proxies legitimately receive different bytes for some resource
 			// name while the first one's resources sit in the shared cache
 			c.Add(vlib.Case{ID: *id, Term: term, Tags: tags, Trivial: outputsDiffer == 0 || cacheKeys == 0,
 				Sample: map[string]any{"kind": "hkey", "first": a, "second": b, "resources": len(ks), "warm_vs_cold_differing": diff,
-					"first_vs_second_differing": outputsDiffer, "cache_keys_after_first": cacheKeys}})
+					"first_vs_second_differing": outputsDiffer, "cache_keys_after_first": cacheKeys, "cds_eds_rds_keys_after_first": perType}})
 		}
 	}
 }
